@@ -53,7 +53,7 @@ func runC20(c *core.Ctx) core.Meta {
 				effects = append(effects, FieldWriteEffect(f+"-write", F(f)))
 			}
 		}
-		RunProto(c, &ProtoCfg{RuleBase: "R20.1." + strings.ToLower(l.typ), Pkg: l.pkg, FloorSends: 1, Effects: effects})
+		RunProto(c, &ProtoCfg{RuleBase: "R20.1." + strings.ToLower(l.typ), Pkg: l.pkg, FloorSends: 1, Effects: effects, AllEffectsAfterSend: true})
 
 		// ---- R20.2 -------------------------------------------------------
 		p.Instrs(func(fn *ssa.Function, in ssa.Instruction) {
